@@ -296,5 +296,18 @@ theorem next_escape (ps uu pu : Bool) (hc : Consistent ps uu pu) (l : Str) (hne 
   rw [h f cm0, ha]
   cases q <;> simp
 
+theorem skipWs_prefix : ∀ (ws inp : Str), (∀ c ∈ ws, isUncap c = true) → skipWs (ws ++ inp) = skipWs inp := by
+  intro ws
+  induction ws with
+  | nil => intro inp _; rfl
+  | cons c cs ih =>
+    intro inp h
+    simp only [List.cons_append, skipWs, h c (by simp), if_true]
+    exact ih inp (fun d hd => h d (by simp [hd]))
+
+theorem next_skip (pu : Bool) (f : Nat) (ws inp : Str) (cm : List Str) (h : ∀ c ∈ ws, isUncap c = true) :
+    next pu (f + 1) (ws ++ inp) cm = next pu (f + 1) inp cm := by
+  rw [next, next, skipWs_prefix ws inp h]
+
 end Aux
 end DendroModel.C02
